@@ -267,7 +267,9 @@ def stepLine (_ : Unit) (line : String) : Unit × String :=
         let (rs, rl) := rlRun (Readline.init cap depth) ks
         let tail := if cxx ∨ rl.faulted then "" else
           " H" ++ toString rl.headhist ++ "," ++ toString rl.curhist ++ "," ++ toString (rstateNum rl.state) ++ "," ++
-            bytesHex rl.hist
+            (if rl.hist.isEmpty then "-" else
+              ".".intercalate ((List.range rl.hsize).map fun i =>
+                bytesHex (((rl.hist.drop (i * cap)).take cap).takeWhile (· ≠ 0))))
         pure (" ".intercalate rs ++ tail)
     | ["lc", var, cap, depth, maxlen, keys] => do
         -- keys through readline_putchar, then readline_linecpy into a destination of exactly maxlen bytes (0xAA)
